@@ -31,6 +31,23 @@ reducible CFG (own dominator based test) is a violation; on an irreducible CFG
 an exception counts as "rejected" (fine), but if a binary is produced it has to
 behave.  A binary V8 refuses to validate is a violation.
 
+Open findings and what they switch off (known_findings.d/C23.json; every switch is a predicate
+on the *generated module*, never on the outcome):
+  * the structure detector (ppci.graph.relooper.StructureDetector) mis-handles nested loops,
+    loops with two outer exit targets, code it generates twice and two-entry cycles, and asserts
+    on ``cjmp c ? L : L``.  While these are open, ``cfg_facts`` (own dominators, post-dominators,
+    natural loops) decides per function whether it contains the trigger (nested, multi_exit_loop,
+    unmerged_branch_before_loop, irreducible) and such modules are not used;
+    ``cjmp c ? L : L`` is rewritten into ``jmp L``.  Consequence, stated plainly: with the
+    irreducible finding open no irreducible CFG is translated in the sweep, so the
+    "rejected-as-unstructurable" counter (observed.rejected) is empty; the catalogue skeletons
+    ``two-entry-loop*`` and the probe keep the mechanism observed.
+  * globals initialised with addresses and by-value blob parameters are not generated.
+The twelve translator findings of the first round (data segments, i64 bit operators, ~ and
+unsigned -, cast lowering, wrap of narrow integers, blob copy, immediates, phi copies, table
+index 0) are fixed in /repo; their witnesses run as regression probes and their constructs are
+generated again.
+
 Boundary convention (narrowing, stated): the wasm ABI of sub-word values is not
 documented, so at the *module boundary* (returned value, argument handed to an
 imported function) an i8/u8/i16/u16/u32 value is compared modulo 2^bits.
@@ -76,7 +93,7 @@ def plan(tier, seed, avoid):
     if tier == "quick":
         n, per, ncfg, percfg, nc, perc = 1200, 40, 240, 60, 240, 12
     else:
-        n, per, ncfg, percfg, nc, perc = 24000, 400, 6000, 500, 4800, 120
+        n, per, ncfg, percfg, nc, perc = 12000, 300, 3000, 300, 2400, 80
     specs = [{"part": "gen", "start": s, "count": per} for s in range(0, n, per)]
     specs += [{"part": "matrix", "ty": t} for t in ALL_TYPES]
     specs += [{"part": "cfg", "start": s, "count": percfg, "catalogue": s == 0} for s in range(0, ncfg, percfg)]
